@@ -573,6 +573,15 @@ structure WF (s : SState) : Prop where
   tags : TagsDistinct s.q
   susp : ∀ e ∈ s.q.toList, e.suspended = true → e.prio = maxInt64
 
+/-- the part of `WF` that needs no assumption on tags -/
+structure WF0 (s : SState) : Prop where
+  inv : Inv s.q
+  susp : ∀ e ∈ s.q.toList, e.suspended = true → e.prio = maxInt64
+
+theorem WF.wf0 {s : SState} (h : WF s) : WF0 s := ⟨h.inv, h.susp⟩
+
+theorem wf0_empty : WF0 {} := ⟨inv_empty, fun e he => by simp at he⟩
+
 theorem wf_empty : WF {} :=
   ⟨inv_empty, fun x hx => by simp at hx, fun e he => by simp at he⟩
 
@@ -642,7 +651,7 @@ theorem askedWith_none_iff (e : Entry) (now thr : Int) :
   unfold askedWith
   cases classify e now thr <;> simp
 
-theorem kept_eq_self (s : SState) (hwf : WF s) (e : Entry) (he : e ∈ s.q.toList) (now thr : Int) :
+theorem kept_eq_self (s : SState) (hwf : WF0 s) (e : Entry) (he : e ∈ s.q.toList) (now thr : Int) :
     ({ e with prio := keptPrio e now thr } : Entry) = e := by
   have : keptPrio e now thr = e.prio := by
     unfold keptPrio
@@ -650,7 +659,7 @@ theorem kept_eq_self (s : SState) (hwf : WF s) (e : Entry) (he : e ∈ s.q.toLis
     exact (hwf.susp e he hs).symm
   rw [this]
 
-theorem apply_kind (thr : Int) (s : SState) (hwf : WF s) (ev : Ev) :
+theorem apply_kind (thr : Int) (s : SState) (hwf : WF0 s) (ev : Ev) :
     Kind thr s ev (apply thr s ev).1 (apply thr s ev).2 := by
   have h := hwf.inv
   cases ev with
@@ -1033,7 +1042,7 @@ theorem run_wf (thr : Int) (evs : List Ev) (s : SState) (hwf : WF s) (hft : Fres
   induction evs generalizing s with
   | nil => exact hwf
   | cons ev evs ih =>
-    have hk := apply_kind thr s hwf ev
+    have hk := apply_kind thr s hwf.wf0 ev
     obtain ⟨h1, h2, h3⟩ := fresh_cons hft hff hk
     exact ih _ (kind_wf hwf h1 hk) h2 h3
 
@@ -1049,8 +1058,595 @@ theorem run_fresh (thr : Int) (evs1 evs2 : List Ev) (s : SState) (hwf : WF s)
   induction evs1 generalizing s with
   | nil => exact ⟨hwf, hft, hff⟩
   | cons ev evs ih =>
-    have hk := apply_kind thr s hwf ev
+    have hk := apply_kind thr s hwf.wf0 ev
     obtain ⟨h1, h2, h3⟩ := fresh_cons hft hff hk
     exact ih _ (kind_wf hwf h1 hk) h2 h3
+
+/-- the trigger call a step makes, as a function of the popped entry (no assumption on the queue) -/
+def stepCalls (s : SState) (e : Entry) (now thr : Int) : List TrigCall :=
+  match askedWith e now thr with
+  | none => []
+  | some pv => [⟨e.tag, pv, ((s.trig e.tag).fire pv).1⟩]
+
+/-- the observable part of a step that does not depend on the queue being well-formed -/
+theorem step_out_basic (s : SState) (now thr : Int) :
+    ((∃ err, qpop s.q = .error err) ∧ step s now thr = (s, {})) ∨
+    ∃ q1 e, qpop s.q = .ok (q1, e) ∧ (step s now thr).2.popped = some e ∧
+      (step s now thr).2.cls = some (classify e now thr) ∧
+      (step s now thr).2.dispatched = (classify e now thr == .valid) ∧
+      (step s now thr).2.misfired = (classify e now thr == .outdated) ∧
+      (step s now thr).2.calls = stepCalls s e now thr := by
+  cases hp : qpop s.q with
+  | error err =>
+    left
+    refine ⟨⟨err, rfl⟩, ?_⟩
+    unfold step
+    rw [hp]
+  | ok r =>
+    obtain ⟨q1, e⟩ := r
+    right
+    refine ⟨q1, e, rfl, ?_⟩
+    unfold step stepCalls askedWith
+    rw [hp]
+    cases hc : classify e now thr <;> simp only [hc]
+    · split <;> exact ⟨rfl, rfl, rfl, rfl, rfl⟩
+    · simp only [trig_with_q]
+      cases hf : ((s.trig e.tag).fire now).1 with
+      | none => exact ⟨rfl, rfl, rfl, rfl, by simp⟩
+      | some p => simp only []; split <;> exact ⟨rfl, rfl, rfl, rfl, by simp⟩
+    · split <;> exact ⟨rfl, rfl, rfl, rfl, rfl⟩
+    · simp only [trig_with_q]
+      cases hf : ((s.trig e.tag).fire e.prio).1 with
+      | none => exact ⟨rfl, rfl, rfl, rfl, by simp⟩
+      | some p => simp only []; split <;> exact ⟨rfl, rfl, rfl, rfl, by simp⟩
+
+/-! ## generic facts about one event (all by cases on `Kind`) -/
+
+theorem askedWith_some_active {e : Entry} {now thr pv : Int} (ha : askedWith e now thr = some pv) :
+    e.suspended = false ∧
+    ((classify e now thr = .valid ∧ pv = e.prio ∧ now - thr ≤ e.prio ∧ e.prio ≤ now) ∨
+     (classify e now thr = .outdated ∧ pv = now ∧ e.prio < now - thr)) := by
+  unfold askedWith at ha
+  rcases classify_cases e now thr with ⟨hc, _⟩ | ⟨hc, hs, h3⟩ | ⟨hc, _⟩ | ⟨hc, hs, h3, h4⟩ <;>
+    rw [hc] at ha
+  · cases ha
+  · injection ha with ha; exact ⟨hs, Or.inr ⟨hc, ha.symm, h3⟩⟩
+  · cases ha
+  · injection ha with ha; exact ⟨hs, Or.inl ⟨hc, ha.symm, h3, h4⟩⟩
+
+theorem disp_stepAsk (e : Entry) (now thr : Int) (calls c : List TrigCall) (pushed : Option Entry)
+    (pos : Nat) :
+    Obs.disp? { calls := c, out := some { outBase e now thr calls with pushed := pushed } } pos =
+      if classify e now thr = .valid then some ⟨pos, e.tag, e.prio⟩ else none := by
+  unfold Obs.disp? outBase
+  cases classify e now thr <;> simp
+
+theorem kind_wf0 {thr : Int} {s s' : SState} {ev : Ev} {o : Obs} (hwf : WF0 s)
+    (hk : Kind thr s ev s' o) : WF0 s' := by
+  cases hk with
+  | idle _ _ _ hmem hinv htr hcalls hdisp hpop =>
+    exact ⟨hinv, fun x hx => hwf.susp x ((hmem x).mp hx)⟩
+  | schedFail => exact hwf
+  | sched now a t t' p calls q' old hl ht hpc hold hnew hmem hinv =>
+    refine ⟨hinv, ?_⟩
+    intro x hx hs
+    rcases (hmem x).mp hx with rfl | ⟨h1, _⟩
+    · rcases hpc with ⟨_, hp, _, _⟩ | ⟨hs', _, _, _⟩
+      · exact hp
+      · rw [show (a.entry p).suspended = a.suspended from rfl, hs'] at hs; cases hs
+    · exact hwf.susp x h1 hs
+  | del g n e q1 he hg hn hmem hinv => exact ⟨hinv, fun x hx hs => hwf.susp x ((hmem x).mp hx).1 hs⟩
+  | pause g n e q1 he hg hn hs hmem hinv =>
+    refine ⟨hinv, ?_⟩
+    intro x hx hxs
+    rcases (mem_swap hmem x).mp hx with rfl | ⟨h1, _⟩
+    · rfl
+    · exact hwf.susp x h1 hxs
+  | resumeFail now g n e he hg hn hs hf => exact ⟨hwf.inv, hwf.susp⟩
+  | resume now g n e p q1 he hg hn hs hf hmem hinv =>
+    refine ⟨hinv, ?_⟩
+    intro x hx hxs
+    rcases (mem_swap hmem x).mp hx with rfl | ⟨h1, _⟩
+    · cases hxs
+    · exact hwf.susp x h1 hxs
+  | clear => exact ⟨inv_empty, fun e he => by simp at he⟩
+  | stepAsk now e q1 pv r q' he hmin ha hf hmem1 hq' hinv =>
+    refine ⟨hinv, ?_⟩
+    intro x hx hxs
+    rcases hq' with ⟨_, rfl⟩ | ⟨p, _, rfl⟩
+    · exact hwf.susp x ((hmem1 x).mp hx).1 hxs
+    · rcases (mem_swap hmem1 x).mp hx with rfl | ⟨h1, _⟩
+      · rw [show ({ e with prio := p } : Entry).suspended = e.suspended from rfl,
+          (askedWith_some_active ha).1] at hxs
+        cases hxs
+      · exact hwf.susp x h1 hxs
+
+theorem run_wf0 (thr : Int) (evs : List Ev) (s : SState) (hwf : WF0 s) : WF0 (run thr s evs).1 := by
+  induction evs generalizing s with
+  | nil => exact hwf
+  | cons ev evs ih => exact ih _ (kind_wf0 hwf (apply_kind thr s hwf ev))
+
+/-- a popped entry was in the registry -/
+theorem kind_pop {thr : Int} {s s' : SState} {ev : Ev} {o : Obs} (hk : Kind thr s ev s' o) :
+    ∀ out e, o.out = some out → out.popped = some e → e ∈ s.q.toList := by
+  intro out x ho hp
+  cases hk with
+  | idle _ _ _ hmem hinv htr hcalls hdisp hpop => exact hpop out x ho hp
+  | stepAsk now e q1 pv r q' he hmin ha hf hmem1 hq' hinv =>
+    injection ho with ho
+    subst ho
+    injection hp with hp
+    subst hp
+    exact he
+  | _ => cases ho
+
+/-- a dispatch: by a step, of an active registry entry that is due and at most `thr` late, together
+with the one trigger call that asks for the successor of exactly that fire time -/
+theorem kind_disp {thr : Int} {s s' : SState} {ev : Ev} {o : Obs} (hk : Kind thr s ev s' o)
+    (pos : Nat) (d : Disp) (hd : o.disp? pos = some d) :
+    ∃ now e, ev = .step now ∧ e ∈ s.q.toList ∧ e.suspended = false ∧ d = ⟨pos, e.tag, e.prio⟩ ∧
+      now - thr ≤ e.prio ∧ e.prio ≤ now ∧ (∀ x ∈ s.q.toList, e.prio ≤ x.prio) ∧
+      o.calls = [⟨e.tag, e.prio, ((s.trig e.tag).fire e.prio).1⟩] := by
+  cases hk with
+  | idle _ _ _ hmem hinv htr hcalls hdisp hpop => rw [hdisp pos] at hd; cases hd
+  | stepAsk now e q1 pv r q' he hmin ha hf hmem1 hq' hinv =>
+    rw [disp_stepAsk] at hd
+    obtain ⟨hs, ⟨hc, hpv, h3, h4⟩ | ⟨hc, _⟩⟩ := askedWith_some_active ha
+    · rw [if_pos hc] at hd
+      injection hd with hd
+      subst hpv
+      exact ⟨now, e, rfl, he, hs, hd.symm, h3, h4, hmin, by rw [hf]⟩
+    · rw [if_neg (by rw [hc]; exact fun hh => by cases hh)] at hd; cases hd
+  | _ => cases hd
+
+/-- every trigger call is either the first call on the trigger object a `schedule` event brings, or a
+call on the trigger of a registry entry that the event addresses (API call on its key / step that popped
+it, active); in the second case the answer and the trigger's new state are those of `Trig.fire` -/
+theorem kind_calls {thr : Int} {s s' : SState} {ev : Ev} {o : Obs} (hk : Kind thr s ev s' o) :
+    ∀ c ∈ o.calls, ev.schedTag? = some c.tag ∨
+      ∃ e ∈ s.q.toList, e.tag = c.tag ∧ c.result = ((s.trig e.tag).fire c.prev).1 ∧
+        s'.trig e.tag = ((s.trig e.tag).fire c.prev).2 ∧
+        (ev.touches e.group e.name = true ∨ (e.suspended = false ∧ ∃ now, ev = .step now)) := by
+  intro c hc
+  cases hk with
+  | idle _ _ _ hmem hinv htr hcalls hdisp hpop => rw [hcalls] at hc; cases hc
+  | schedFail now a r err =>
+    rw [List.mem_singleton] at hc; subst hc; exact Or.inl rfl
+  | sched now a t t' p calls q' old hl ht hpc hold hnew hmem hinv =>
+    rcases hpc with ⟨_, _, _, h4⟩ | ⟨_, _, _, h4⟩
+    · subst h4; cases hc
+    · subst h4; rw [List.mem_singleton] at hc; subst hc; exact Or.inl rfl
+  | del => cases hc
+  | pause => cases hc
+  | resumeFail now g n e he hg hn hs hf =>
+    rw [List.mem_singleton] at hc; subst hc
+    refine Or.inr ⟨e, he, rfl, hf.symm, trig_setTrig_same _ _ _, Or.inl ?_⟩
+    simp [Ev.touches, hg, hn]
+  | resume now g n e p q1 he hg hn hs hf hmem hinv =>
+    rw [List.mem_singleton] at hc; subst hc
+    refine Or.inr ⟨e, he, rfl, hf.symm, trig_setTrig_same _ _ _, Or.inl ?_⟩
+    simp [Ev.touches, hg, hn]
+  | clear => cases hc
+  | stepAsk now e q1 pv r q' he hmin ha hf hmem1 hq' hinv =>
+    rw [List.mem_singleton] at hc; subst hc
+    exact Or.inr ⟨e, he, rfl, hf.symm, trig_setTrig_same _ _ _,
+      Or.inr ⟨(askedWith_some_active ha).1, now, rfl⟩⟩
+
+/-- trigger objects that are not asked (and not brought in) keep their state -/
+theorem kind_trig_frame {thr : Int} {s s' : SState} {ev : Ev} {o : Obs} (hk : Kind thr s ev s' o)
+    (t : Nat) (hnc : ∀ c ∈ o.calls, c.tag ≠ t) (hns : ev.schedTag? ≠ some t) :
+    s'.trig t = s.trig t := by
+  cases hk with
+  | idle _ _ _ hmem hinv htr hcalls hdisp hpop => unfold SState.trig; rw [htr]
+  | schedFail => rfl
+  | sched now a t0 t' p calls q' old hl ht hpc hold hnew hmem hinv =>
+    have : t ≠ a.tag := fun hh => hns (by rw [hh]; rfl)
+    rw [trig_setTrig_other _ _ _ _ this]; rfl
+  | del => rfl
+  | pause => rfl
+  | resumeFail now g n e he hg hn hs hf =>
+    have : t ≠ e.tag := fun hh => hnc _ List.mem_cons_self hh.symm
+    exact trig_setTrig_other _ _ _ _ this
+  | resume now g n e p q1 he hg hn hs hf hmem hinv =>
+    have : t ≠ e.tag := fun hh => hnc _ List.mem_cons_self hh.symm
+    show (s.setTrig e.tag _).trig t = _
+    exact trig_setTrig_other _ _ _ _ this
+  | clear => rfl
+  | stepAsk now e q1 pv r q' he hmin ha hf hmem1 hq' hinv =>
+    have : t ≠ e.tag := fun hh => hnc _ List.mem_cons_self hh.symm
+    show ((({ s with q := q1 } : SState).setTrig e.tag _).trig t) = _
+    rw [trig_setTrig_other _ _ _ _ this]; rfl
+
+/-- a suspended entry whose key the event does not address stays exactly as it is -/
+theorem kind_keep {thr : Int} {s s' : SState} {ev : Ev} {o : Obs} (hk : Kind thr s ev s' o)
+    (x : Entry) (hx : x ∈ s.q.toList) (hnt : ev.touches x.group x.name = false)
+    (hxs : x.suspended = true) : x ∈ s'.q.toList := by
+  cases hk with
+  | idle _ _ _ hmem hinv htr hcalls hdisp hpop => exact (hmem x).mpr hx
+  | schedFail => exact hx
+  | sched now a t0 t' p calls q' old hl ht hpc hold hnew hmem hinv =>
+    apply (hmem x).mpr
+    right
+    refine ⟨hx, ?_⟩
+    intro ho
+    obtain ⟨_, hg, hn, _⟩ := hold x ho
+    simp [Ev.touches, hg, hn] at hnt
+  | del g n e q1 he hg hn hmem hinv =>
+    apply (hmem x).mpr
+    refine ⟨hx, ?_⟩
+    rintro rfl
+    simp [Ev.touches, hg, hn] at hnt
+  | pause g n e q1 he hg hn hs hmem hinv =>
+    apply (mem_swap hmem x).mpr
+    right
+    refine ⟨hx, ?_⟩
+    intro hh
+    injection hh with hh
+    subst hh
+    simp [Ev.touches, hg, hn] at hnt
+  | resumeFail => exact hx
+  | resume now g n e p q1 he hg hn hs hf hmem hinv =>
+    apply (mem_swap hmem x).mpr
+    right
+    refine ⟨hx, ?_⟩
+    intro hh
+    injection hh with hh
+    subst hh
+    simp [Ev.touches, hg, hn] at hnt
+  | clear => simp [Ev.touches] at hnt
+  | stepAsk now e q1 pv r q' he hmin ha hf hmem1 hq' hinv =>
+    have hne : x ≠ e := by
+      rintro rfl
+      rw [(askedWith_some_active ha).1] at hxs
+      cases hxs
+    rcases hq' with ⟨_, rfl⟩ | ⟨p, _, rfl⟩
+    · exact (hmem1 x).mpr ⟨hx, hne⟩
+    · exact (mem_swap hmem1 x).mpr (Or.inr ⟨hx, fun hh => hne (Option.some.inj hh).symm⟩)
+
+/-- an active entry of the new state either has just been produced by a trigger call of this event
+(same tag, that answer), or was there before and is not the one being dispatched -/
+theorem kind_active {thr : Int} {s s' : SState} {ev : Ev} {o : Obs} (hwf : WF s)
+    (hk : Kind thr s ev s' o) (x : Entry) (hx : x ∈ s'.q.toList) (hxs : x.suspended = false) :
+    (∃ pv, (⟨x.tag, pv, some x.prio⟩ : TrigCall) ∈ o.calls) ∨
+    (x ∈ s.q.toList ∧ ∀ pos d, o.disp? pos = some d → d.tag ≠ x.tag) := by
+  cases hk with
+  | idle _ _ _ hmem hinv htr hcalls hdisp hpop =>
+    exact Or.inr ⟨(hmem x).mp hx, fun pos d hd => by rw [hdisp pos] at hd; cases hd⟩
+  | schedFail => exact Or.inr ⟨hx, fun pos d hd => by cases hd⟩
+  | sched now a t0 t' p calls q' old hl ht hpc hold hnew hmem hinv =>
+    rcases (hmem x).mp hx with rfl | ⟨h1, _⟩
+    · rcases hpc with ⟨h1, _⟩ | ⟨_, _, _, h4⟩
+      · rw [show (a.entry p).suspended = a.suspended from rfl, h1] at hxs; cases hxs
+      · subst h4; exact Or.inl ⟨now, List.mem_cons_self⟩
+    · exact Or.inr ⟨h1, fun pos d hd => by cases hd⟩
+  | del g n e q1 he hg hn hmem hinv =>
+    exact Or.inr ⟨((hmem x).mp hx).1, fun pos d hd => by cases hd⟩
+  | pause g n e q1 he hg hn hs hmem hinv =>
+    rcases (mem_swap hmem x).mp hx with rfl | ⟨h1, _⟩
+    · cases hxs
+    · exact Or.inr ⟨h1, fun pos d hd => by cases hd⟩
+  | resumeFail => exact Or.inr ⟨hx, fun pos d hd => by cases hd⟩
+  | resume now g n e p q1 he hg hn hs hf hmem hinv =>
+    rcases (mem_swap hmem x).mp hx with rfl | ⟨h1, _⟩
+    · exact Or.inl ⟨now, List.mem_cons_self⟩
+    · exact Or.inr ⟨h1, fun pos d hd => by cases hd⟩
+  | clear => simp at hx
+  | stepAsk now e q1 pv r q' he hmin ha hf hmem1 hq' hinv =>
+    have hdt : ∀ (c : List TrigCall) (pu : Option Entry) (pos : Nat) (d : Disp),
+        Obs.disp? ({ calls := c, out := some { outBase e now thr c with pushed := pu } } : Obs) pos =
+          some d → d.tag = e.tag := by
+      intro c pu pos d hd
+      rw [disp_stepAsk] at hd
+      split at hd
+      · injection hd with hd; subst hd; rfl
+      · cases hd
+    have hold : ∀ y, y ∈ s.q.toList → y ≠ e → ∀ (pos : Nat) (d : Disp), d.tag = e.tag → d.tag ≠ y.tag := by
+      intro y hy hne pos d hd hh
+      exact hne (hwf.tags y hy e he (by rw [← hh, hd]))
+    rcases hq' with ⟨_, rfl⟩ | ⟨p, hr, rfl⟩
+    · obtain ⟨h1, h2⟩ := (hmem1 x).mp hx
+      exact Or.inr ⟨h1, fun pos d hd => hold x h1 h2 pos d (hdt _ _ pos d hd)⟩
+    · rcases (mem_swap hmem1 x).mp hx with rfl | ⟨h1, h2⟩
+      · subst hr; exact Or.inl ⟨pv, List.mem_cons_self⟩
+      · exact Or.inr ⟨h1, fun pos d hd =>
+          hold x h1 (fun hh => h2 (by rw [hh])) pos d (hdt _ _ pos d hd)⟩
+
+/-! ## a tag that is not in the registry stays out, and silent -/
+
+def AbsentTag (t : Nat) (s : SState) : Prop := ∀ e ∈ s.q.toList, e.tag ≠ t
+
+theorem quiet_noConsume {t : Nat} {o : Obs} (h : o.quiet t) : o.noConsume t := by
+  refine ⟨h.1, ?_⟩
+  intro pos d hd
+  unfold Obs.disp? at hd
+  split at hd
+  · rename_i out ho
+    split at hd
+    · split at hd
+      · rename_i e hp
+        injection hd with hd
+        subst hd
+        exact h.2 out e ho hp
+      · cases hd
+    · cases hd
+  · cases hd
+
+theorem kind_absent {thr : Int} {s s' : SState} {ev : Ev} {o : Obs} {t : Nat}
+    (hk : Kind thr s ev s' o) (ha : AbsentTag t s) (hns : ev.schedTag? ≠ some t) :
+    AbsentTag t s' ∧ o.quiet t := by
+  refine ⟨?_, ?_, ?_⟩
+  · intro x hx hxt
+    rcases kind_tags hk x hx with ⟨e, he, het⟩ | hst
+    · exact ha e he (by rw [het, hxt])
+    · exact hns (by rw [hst, hxt])
+  · intro c hc hct
+    rcases kind_calls hk c hc with hst | ⟨e, he, het, _⟩
+    · exact hns (by rw [hst, hct])
+    · exact ha e he (by rw [het, hct])
+  · intro out e ho hp
+    exact ha e (kind_pop hk out e ho hp)
+
+theorem run_absent (thr : Int) (t : Nat) (evs : List Ev) (s : SState) (hwf : WF0 s)
+    (ha : AbsentTag t s) (hns : t ∉ schedTags evs) :
+    AbsentTag t (run thr s evs).1 ∧ ∀ o ∈ (run thr s evs).2, o.quiet t := by
+  induction evs generalizing s with
+  | nil => exact ⟨ha, fun o ho => by cases ho⟩
+  | cons ev evs ih =>
+    have hk := apply_kind thr s hwf ev
+    rw [schedTags_cons] at hns
+    have hns1 : ev.schedTag? ≠ some t := fun hh => hns (List.mem_append_left _ (by rw [hh]; simp))
+    have hns2 : t ∉ schedTags evs := fun hh => hns (List.mem_append_right _ hh)
+    obtain ⟨ha', hq⟩ := kind_absent hk ha hns1
+    obtain ⟨h1, h2⟩ := ih _ (kind_wf0 hwf hk) ha' hns2
+    rw [run_cons]
+    refine ⟨h1, ?_⟩
+    intro o ho
+    rcases List.mem_cons.mp ho with rfl | ho
+    · exact hq
+    · exact h2 o ho
+
+/-! ## a paused entry whose key is left alone -/
+
+theorem kind_paused {thr : Int} {s s' : SState} {ev : Ev} {o : Obs} (hwf : WF s)
+    (hk : Kind thr s ev s' o) (hfr : FreshEv s ev) (x : Entry) (hx : x ∈ s.q.toList)
+    (hxs : x.suspended = true) (hnt : ev.touches x.group x.name = false) :
+    x ∈ s'.q.toList ∧ o.noConsume x.tag ∧ s'.trig x.tag = s.trig x.tag := by
+  have hcalls : ∀ c ∈ o.calls, c.tag ≠ x.tag := by
+    intro c hc hct
+    rcases kind_calls hk c hc with hst | ⟨e, he, het, _, _, htch | ⟨hes, _⟩⟩
+    · exact hfr c.tag hst x hx hct.symm
+    · have : e = x := hwf.tags e he x hx (by rw [het, hct])
+      subst this
+      rw [hnt] at htch; cases htch
+    · have : e = x := hwf.tags e he x hx (by rw [het, hct])
+      subst this
+      rw [hxs] at hes; cases hes
+  refine ⟨kind_keep hk x hx hnt hxs, ⟨hcalls, ?_⟩, ?_⟩
+  · intro pos d hd hdt
+    obtain ⟨now, e, _, he, hes, hde, _⟩ := kind_disp hk pos d hd
+    subst hde
+    have : e = x := hwf.tags e he x hx hdt
+    subst this
+    rw [hxs] at hes; cases hes
+  · apply kind_trig_frame hk x.tag hcalls
+    intro hst
+    exact hfr x.tag hst x hx rfl
+
+theorem run_paused (thr : Int) (evs : List Ev) (s : SState) (hwf : WF s) (hft : FreshTags evs)
+    (hff : FreshFor s evs) (x : Entry) (hx : x ∈ s.q.toList) (hxs : x.suspended = true)
+    (hnt : ∀ ev ∈ evs, ev.touches x.group x.name = false) :
+    x ∈ (run thr s evs).1.q.toList ∧ (∀ o ∈ (run thr s evs).2, o.noConsume x.tag) ∧
+      (run thr s evs).1.trig x.tag = s.trig x.tag := by
+  induction evs generalizing s with
+  | nil => exact ⟨hx, (fun o ho => by cases ho), rfl⟩
+  | cons ev evs ih =>
+    have hk := apply_kind thr s hwf.wf0 ev
+    obtain ⟨h1, h2, h3⟩ := fresh_cons hft hff hk
+    obtain ⟨hx', hnc, htr⟩ := kind_paused hwf hk h1 x hx hxs (hnt ev List.mem_cons_self)
+    obtain ⟨i1, i2, i3⟩ := ih _ (kind_wf hwf h1 hk) h2 h3 hx'
+      (fun ev' hev' => hnt ev' (List.mem_cons_of_mem _ hev'))
+    rw [run_cons]
+    refine ⟨i1, ?_, by rw [i3, htr]⟩
+    intro o ho
+    rcases List.mem_cons.mp ho with rfl | ho
+    · exact hnc
+    · exact i2 o ho
+
+/-- splitting a fresh history from the empty scheduler at one event -/
+theorem reachable_split (thr : Int) (evs1 : List Ev) (ev : Ev) (evs2 : List Ev)
+    (hft : FreshTags (evs1 ++ ev :: evs2)) :
+    WF (run thr {} evs1).1 ∧ FreshTags evs2 ∧ FreshFor (apply thr (run thr {} evs1).1 ev).1 evs2 ∧
+      ∀ e ∈ (run thr {} evs1).1.q.toList, e.tag ∉ schedTags evs2 := by
+  obtain ⟨hwf, h2, h3⟩ := run_fresh thr evs1 (ev :: evs2) {} wf_empty hft (freshFor_empty _)
+  have hk := apply_kind thr _ hwf.wf0 ev
+  obtain ⟨_, h4, h5⟩ := fresh_cons h2 h3 hk
+  refine ⟨hwf, h4, h5, ?_⟩
+  intro e he hmem
+  have : e.tag ∈ schedTags (ev :: evs2) := by
+    rw [schedTags_cons]; exact List.mem_append_right _ hmem
+  exact h3 e.tag this e he rfl
+
+theorem AllPairs.length_eq {α β : Type} {R : α → β → Prop} {as : List α} {bs : List β}
+    (h : AllPairs R as bs) : as.length = bs.length := by
+  induction h with
+  | nil => rfl
+  | cons _ _ ih => simp [ih]
+
+theorem AllPairs.get {α β : Type} {R : α → β → Prop} {as : List α} {bs : List β}
+    (h : AllPairs R as bs) : ∀ (i : Nat) (h1 : i < as.length) (h2 : i < bs.length), R as[i] bs[i] := by
+  induction h with
+  | nil => intro i h1; cases h1
+  | cons hr _ ih =>
+    intro i h1 h2
+    cases i with
+    | zero => exact hr
+    | succ i => exact ih i (by simpa using h1) (by simpa using h2)
+
+/-- what `dispatchesFrom` lists: exactly the dispatches of the observations, each stamped with the
+length of the call log before its step -/
+theorem mem_dispatchesFrom (p : Nat) (obs : List Obs) (d : Disp) :
+    d ∈ dispatchesFrom p obs ↔
+      ∃ pre o post, obs = pre ++ o :: post ∧ o.disp? (p + (callLog pre).length) = some d := by
+  induction obs generalizing p with
+  | nil =>
+    constructor
+    · intro h; cases h
+    · rintro ⟨pre, o, post, h, _⟩
+      cases pre <;> cases h
+  | cons o os ih =>
+    unfold dispatchesFrom
+    rw [List.mem_append, ih]
+    constructor
+    · rintro (h | ⟨pre, o', post, h1, h2⟩)
+      · refine ⟨[], o, os, rfl, ?_⟩
+        have : o.disp? p = some d := by
+          cases hh : o.disp? p with
+          | none => rw [hh] at h; cases h
+          | some d' => rw [hh] at h; simp at h; rw [h]
+        simpa [callLog] using this
+      · refine ⟨o :: pre, o', post, by rw [h1]; rfl, ?_⟩
+        have : (callLog (o :: pre)).length = o.calls.length + (callLog pre).length := by
+          simp [callLog]
+        rw [this, ← Nat.add_assoc]; exact h2
+    · rintro ⟨pre, o', post, h1, h2⟩
+      cases pre with
+      | nil =>
+        left
+        injection h1 with h1 h1'
+        subst h1
+        have : o.disp? p = some d := by simpa [callLog] using h2
+        rw [this]; simp
+      | cons o'' pre =>
+        right
+        injection h1 with h1 h1'
+        subst h1
+        refine ⟨pre, o', post, h1', ?_⟩
+        have : (callLog (o :: pre)).length = o.calls.length + (callLog pre).length := by
+          simp [callLog]
+        rw [this, ← Nat.add_assoc] at h2; exact h2
+
+/-! ## the pending-call invariant -/
+
+/-- every active entry has a trigger call in the log that produced its fire time and has not been
+consumed by a dispatch yet -/
+def PInv (s : SState) (log : List TrigCall) (used : List Nat) : Prop :=
+  ∀ x ∈ s.q.toList, x.suspended = false →
+    ∃ k, k ∉ used ∧ ∃ pv, log[k]? = some ⟨x.tag, pv, some x.prio⟩
+
+theorem getElem?_append_of_some {α : Type} (l l' : List α) (k : Nat) (a : α) (h : l[k]? = some a) :
+    (l ++ l')[k]? = some a := by
+  have hk : k < l.length := by
+    rcases Nat.lt_or_ge k l.length with h1 | h1
+    · exact h1
+    · rw [List.getElem?_eq_none h1] at h; cases h
+  rw [List.getElem?_append_left hk]; exact h
+
+theorem lt_length_of_getElem?_some {α : Type} (l : List α) (k : Nat) (a : α) (h : l[k]? = some a) :
+    k < l.length := by
+  rcases Nat.lt_or_ge k l.length with h1 | h1
+  · exact h1
+  · rw [List.getElem?_eq_none h1] at h; cases h
+
+theorem pinv_step {thr : Int} {s s' : SState} {ev : Ev} {o : Obs} (hwf : WF s)
+    (hk : Kind thr s ev s' o) (log : List TrigCall) (used : List Nat) (hp : PInv s log used)
+    (hu : ∀ k ∈ used, k < log.length) :
+    (o.disp? log.length = none ∧ PInv s' (log ++ o.calls) used) ∨
+    (∃ d k, o.disp? log.length = some d ∧ d.pos = log.length ∧ k ∉ used ∧ k < log.length ∧
+      (∃ pv, log[k]? = some ⟨d.tag, pv, some d.time⟩) ∧ PInv s' (log ++ o.calls) (k :: used)) := by
+  -- an entry produced by a call of this event: its index is beyond the old log
+  have hnew : ∀ x : Entry, (∃ pv, (⟨x.tag, pv, some x.prio⟩ : TrigCall) ∈ o.calls) →
+      ∃ k, log.length ≤ k ∧ ∃ pv, (log ++ o.calls)[k]? = some ⟨x.tag, pv, some x.prio⟩ := by
+    rintro x ⟨pv, hc⟩
+    obtain ⟨i, hi, hget⟩ := List.getElem_of_mem hc
+    refine ⟨log.length + i, Nat.le_add_right _ _, pv, ?_⟩
+    rw [List.getElem?_append_right (Nat.le_add_right _ _), Nat.add_sub_cancel_left,
+      List.getElem?_eq_getElem hi, hget]
+  cases hd : o.disp? log.length with
+  | none =>
+    left
+    refine ⟨rfl, ?_⟩
+    intro x hx hxs
+    rcases kind_active hwf hk x hx hxs with hc | ⟨hx0, _⟩
+    · obtain ⟨k, hk1, pv, hk2⟩ := hnew x hc
+      exact ⟨k, fun hh => by have := hu k hh; omega, pv, hk2⟩
+    · obtain ⟨k, hk1, pv, hk2⟩ := hp x hx0 hxs
+      exact ⟨k, hk1, pv, getElem?_append_of_some _ _ _ _ hk2⟩
+  | some d =>
+    right
+    obtain ⟨now, e, _, he, hes, hde, _⟩ := kind_disp hk log.length d hd
+    obtain ⟨ke, hke1, pve, hke2⟩ := hp e he hes
+    have hkelt := lt_length_of_getElem?_some _ _ _ hke2
+    refine ⟨d, ke, rfl, by rw [hde], hke1, hkelt, ⟨pve, by rw [hde]; exact hke2⟩, ?_⟩
+    intro x hx hxs
+    rcases kind_active hwf hk x hx hxs with hc | ⟨hx0, hnd⟩
+    · obtain ⟨k, hk1, pv, hk2⟩ := hnew x hc
+      refine ⟨k, ?_, pv, hk2⟩
+      intro hh
+      rcases List.mem_cons.mp hh with h1 | h1
+      · omega
+      · have := hu k h1; omega
+    · obtain ⟨k, hk1, pv, hk2⟩ := hp x hx0 hxs
+      refine ⟨k, ?_, pv, getElem?_append_of_some _ _ _ _ hk2⟩
+      intro hh
+      rcases List.mem_cons.mp hh with h1 | h1
+      · subst h1
+        rw [hke2] at hk2
+        injection hk2 with hk2
+        injection hk2 with ht _ _
+        have := hnd log.length d hd
+        rw [hde] at this
+        exact this ht
+      · exact hk1 h1
+
+/-- generalised form for the induction: start anywhere, with a log and a set of consumed indices -/
+theorem own_trigger_aux (thr : Int) (evs : List Ev) :
+    ∀ (s : SState) (log : List TrigCall) (used : List Nat), WF s → FreshTags evs → FreshFor s evs →
+      PInv s log used → (∀ k ∈ used, k < log.length) →
+      ∃ m : List Nat, (∀ k ∈ m, k ∉ used) ∧ m.Nodup ∧
+        AllPairs (fun d k => k < d.pos ∧
+            ∃ pv, (log ++ callLog (run thr s evs).2)[k]? = some ⟨d.tag, pv, some d.time⟩)
+          (dispatchesFrom log.length (run thr s evs).2) m := by
+  induction evs with
+  | nil =>
+    intro s log used _ _ _ _ _
+    exact ⟨[], (fun k hk => by cases hk), List.nodup_nil, AllPairs.nil⟩
+  | cons ev evs ih =>
+    intro s log used hwf hft hff hp hu
+    have hk := apply_kind thr s hwf.wf0 ev
+    obtain ⟨h1, h2, h3⟩ := fresh_cons hft hff hk
+    have hwf' := kind_wf hwf h1 hk
+    have hlog : log ++ callLog (run thr s (ev :: evs)).2 =
+        (log ++ (apply thr s ev).2.calls) ++ callLog (run thr (apply thr s ev).1 evs).2 := by
+      rw [run_cons]
+      simp [callLog, List.append_assoc]
+    have hdis : dispatchesFrom log.length (run thr s (ev :: evs)).2 =
+        ((apply thr s ev).2.disp? log.length).toList ++
+          dispatchesFrom (log ++ (apply thr s ev).2.calls).length (run thr (apply thr s ev).1 evs).2 := by
+      rw [run_cons]
+      simp [dispatchesFrom]
+    rw [hlog, hdis]
+    rcases pinv_step hwf hk log used hp hu with ⟨hd, hp'⟩ | ⟨d, k, hd, hpos, hk1, hk2, ⟨pv, hk3⟩, hp'⟩
+    · have hu' : ∀ k ∈ used, k < (log ++ (apply thr s ev).2.calls).length := by
+        intro k hk; have := hu k hk; rw [List.length_append]; omega
+      obtain ⟨m, hm1, hm2, hm3⟩ := ih _ _ used hwf' h2 h3 hp' hu'
+      refine ⟨m, hm1, hm2, ?_⟩
+      rw [hd]
+      exact hm3
+    · have hu' : ∀ k' ∈ k :: used, k' < (log ++ (apply thr s ev).2.calls).length := by
+        intro k' hk'
+        rw [List.length_append]
+        rcases List.mem_cons.mp hk' with rfl | hk'
+        · omega
+        · have := hu k' hk'; omega
+      obtain ⟨m, hm1, hm2, hm3⟩ := ih _ _ (k :: used) hwf' h2 h3 hp' hu'
+      refine ⟨k :: m, ?_, ?_, ?_⟩
+      · intro k' hk'
+        rcases List.mem_cons.mp hk' with rfl | hk'
+        · exact hk1
+        · exact fun hh => hm1 k' hk' (List.mem_cons_of_mem _ hh)
+      · exact List.nodup_cons.mpr ⟨fun hh => hm1 k hh List.mem_cons_self, hm2⟩
+      · rw [hd]
+        refine AllPairs.cons ⟨by rw [hpos]; exact hk2, pv, ?_⟩ hm3
+        exact getElem?_append_of_some _ _ _ _ (getElem?_append_of_some _ _ _ _ hk3)
 
 end Sched
